@@ -11,6 +11,9 @@ static mut MS_CALLS: crate::verif_models::Tg<usize> = crate::verif_models::Tg { 
 fn stub_is_multisig(_s: &Script) -> bool {
     unsafe { MS_CALLS.v += 1; MS.v }
 }
+/// OP_RETURN payload extraction is cut in the all-contents harnesses (the payload text is C16's claim, checked by
+/// c16_btc_* with concrete push opcodes): with a symbolic second byte the payload slice has a symbolic start.
+fn stub_opret_data(_b: &[u8]) -> &[u8] { &[] }
 fn stub_from_utf8(v: Vec<u8>) -> Result<String, std::string::FromUtf8Error> {
     core::mem::forget(v);
     Ok(String::new())
@@ -164,8 +167,9 @@ macro_rules! cascade {
         #[kani::stub(<bitcoin::hashes::sha256::HashEngine as bitcoin::hashes::HashEngine>::input, ghost::stub_engine_input)]
         #[kani::stub(<bitcoin::hashes::hash160::Hash as bitcoin::hashes::Hash>::from_engine, ghost::stub_hash160_fin)]
         #[kani::stub(<bitcoin::hashes::sha256d::Hash as bitcoin::hashes::Hash>::from_engine, ghost::stub_sha256d_fin)]
-        #[kani::stub(bitcoin::Script::is_multisig, stub_is_multisig)]
+        #[kani::stub(crate::blockchain::proto::script::is_multisig, stub_is_multisig)]
         #[kani::stub(std::string::String::from_utf8, stub_from_utf8)]
+        #[kani::stub(crate::blockchain::proto::script::op_return_data, stub_opret_data)]
         fn $name() {
             ghost::init(kani::any());
             let s: [u8; $len] = kani::any();
@@ -244,10 +248,12 @@ fn c05_dispatch() {
 }
 
 // ---- multisig with the real predicate: [m] k x (01 xx) [n] [c] ---------------------------------
+// The three opcode bytes are concrete per instance (a symbolic opcode makes rust-bitcoin's instruction
+// iterator symbolic: >12 GiB); key bytes are symbolic.
 macro_rules! btc_multisig {
-    ($name:ident, $k:expr, $unw:expr) => {
+    ($name:ident, $k:expr, $m:expr, $n:expr, $c:expr) => {
         #[kani::proof]
-        #[kani::unwind($unw)]
+        #[kani::unwind(40)]
         #[kani::stub(bitcoin::base58::encode_check_to_fmt, ghost::stub_b58ck_fmt)]
         #[kani::stub(bitcoin::bech32::segwit::encode_lower_to_fmt_unchecked, ghost::stub_bech)]
         #[kani::stub(<bitcoin::hashes::sha256::HashEngine as bitcoin::hashes::HashEngine>::input, ghost::stub_engine_input)]
@@ -258,37 +264,43 @@ macro_rules! btc_multisig {
             ghost::init(kani::any());
             const L: usize = 3 + 2 * $k;
             let mut s = [0u8; L];
-            let m: u8 = kani::any();
-            let n: u8 = kani::any();
-            let c: u8 = kani::any();
-            // m: a small-integer opcode (all 16) or one of the other opcode classes' representatives
-            kani::assume((m >= 0x4f && m <= 0x61) || m == 0x76 || m == 0xac);
-            // n, c: any non-push opcode (pushes in these slots change the token structure)
-            kani::assume(n >= 0x4f && c >= 0x4f);
-            s[0] = m;
+            s[0] = $m;
             let mut i = 0;
             while i < $k { s[1 + 2 * i] = 0x01; s[2 + 2 * i] = kani::any(); i += 1; }
-            s[L - 2] = n;
-            s[L - 1] = c;
+            s[L - 2] = $n;
+            s[L - 1] = $c;
             let want = ref_multisig(&s);
-            kani::cover!(want, "well-formed m-of-n");
-            kani::cover!(!want && m >= 0x51 && m <= 0x60 && n >= 0x51 && n <= 0x60 && c == 0xae && (m - 0x50) as usize > $k, "m greater than n");
-            kani::cover!(!want && m >= 0x51 && m <= 0x60 && n >= 0x51 && n <= 0x60 && c == 0xae && (n - 0x50) as usize != $k, "n does not match the key count");
-            kani::cover!(m >= 0x51 && m <= 0x60 && (n < 0x51 || n > 0x60) && c == 0xae, "non-number opcode in the n slot");
+            kani::cover!(true, "evaluated");
             check_bitcoin(&s, 0x00, want);
         }
     };
 }
-//@ id=C05,C14 tier=quick name=c05_multisig_k1 timeout=1800 role=btc_multisig bound=1-key,m-in-OP_1NEGATE..OP_NOP+2,n-and-c-any-non-push-opcode fn=eval_from_bytes_bitcoin,Script::is_multisig
-btc_multisig!(c05_multisig_k1, 1, 40);
-//@ id=C05,C14 tier=quick name=c05_multisig_k3 timeout=2400 role=btc_multisig bound=3-keys
-btc_multisig!(c05_multisig_k3, 3, 40);
-//@ id=C05,C14 tier=thorough name=c05_multisig_k0 timeout=1800 role=btc_multisig bound=0-keys
-btc_multisig!(c05_multisig_k0, 0, 40);
-//@ id=C05,C14 tier=thorough name=c05_multisig_k2 timeout=2400 role=btc_multisig bound=2-keys
-btc_multisig!(c05_multisig_k2, 2, 40);
-//@ id=C05,C14 tier=thorough name=c05_multisig_k16 timeout=3600 role=btc_multisig bound=16-keys mem=20
-btc_multisig!(c05_multisig_k16, 16, 40);
+//@ id=C05,C14 tier=quick name=c05_ms_1of1 timeout=900 role=btc_multisig bound=1-key(s),m=0x51,n=0x51,c=0xae:well-formed-1-of-1 fn=eval_from_bytes_bitcoin,is_multisig
+btc_multisig!(c05_ms_1of1, 1, 0x51, 0x51, 0xae);
+//@ id=C05,C14 tier=quick name=c05_ms_2of3 timeout=900 role=btc_multisig bound=3-key(s),m=0x52,n=0x53,c=0xae:well-formed-2-of-3 fn=eval_from_bytes_bitcoin,is_multisig
+btc_multisig!(c05_ms_2of3, 3, 0x52, 0x53, 0xae);
+//@ id=C05,C14 tier=quick name=c05_ms_m_gt_n timeout=900 role=btc_multisig bound=1-key(s),m=0x52,n=0x51,c=0xae:m-greater-than-n fn=eval_from_bytes_bitcoin,is_multisig
+btc_multisig!(c05_ms_m_gt_n, 1, 0x52, 0x51, 0xae);
+//@ id=C05,C14 tier=quick name=c05_ms_wrong_n timeout=900 role=btc_multisig bound=3-key(s),m=0x52,n=0x52,c=0xae:n-does-not-match-the-key-count fn=eval_from_bytes_bitcoin,is_multisig
+btc_multisig!(c05_ms_wrong_n, 3, 0x52, 0x52, 0xae);
+//@ id=C05,C14 tier=quick name=c05_ms_nonnum_n timeout=900 role=btc_multisig bound=1-key(s),m=0x51,n=0x76,c=0xae:non-number-opcode-in-the-n-slot(OP_DUP) fn=eval_from_bytes_bitcoin,is_multisig
+btc_multisig!(c05_ms_nonnum_n, 1, 0x51, 0x76, 0xae);
+//@ id=C05,C14 tier=quick name=c05_ms_wrong_c timeout=900 role=btc_multisig bound=1-key(s),m=0x51,n=0x51,c=0xac:CHECKSIG-instead-of-CHECKMULTISIG fn=eval_from_bytes_bitcoin,is_multisig
+btc_multisig!(c05_ms_wrong_c, 1, 0x51, 0x51, 0xac);
+//@ id=C05,C14 tier=quick name=c05_ms_nonnum_m timeout=900 role=btc_multisig bound=1-key(s),m=0x76,n=0x51,c=0xae:non-number-opcode-in-the-m-slot fn=eval_from_bytes_bitcoin,is_multisig
+btc_multisig!(c05_ms_nonnum_m, 1, 0x76, 0x51, 0xae);
+//@ id=C05,C14 tier=quick name=c05_ms_neg_m timeout=900 role=btc_multisig bound=1-key(s),m=0x4f,n=0x51,c=0xae:OP_1NEGATE-as-m fn=eval_from_bytes_bitcoin,is_multisig
+btc_multisig!(c05_ms_neg_m, 1, 0x4f, 0x51, 0xae);
+//@ id=C05,C14 tier=thorough name=c05_ms_0keys timeout=900 role=btc_multisig bound=0-key(s),m=0x51,n=0x51,c=0xae:no-keys-n=1 fn=eval_from_bytes_bitcoin,is_multisig
+btc_multisig!(c05_ms_0keys, 0, 0x51, 0x51, 0xae);
+//@ id=C05,C14 tier=thorough name=c05_ms_nop_n timeout=900 role=btc_multisig bound=3-key(s),m=0x52,n=0x61,c=0xae:OP_NOP-in-the-n-slot fn=eval_from_bytes_bitcoin,is_multisig
+btc_multisig!(c05_ms_nop_n, 3, 0x52, 0x61, 0xae);
+//@ id=C05,C14 tier=thorough name=c05_ms_16of16 timeout=900 role=btc_multisig bound=16-key(s),m=0x60,n=0x60,c=0xae:16-of-16 fn=eval_from_bytes_bitcoin,is_multisig
+btc_multisig!(c05_ms_16of16, 16, 0x60, 0x60, 0xae);
+//@ id=C05,C14 tier=thorough name=c05_ms_cmsverify timeout=900 role=btc_multisig bound=3-key(s),m=0x52,n=0x53,c=0xaf:CHECKMULTISIGVERIFY fn=eval_from_bytes_bitcoin,is_multisig
+btc_multisig!(c05_ms_cmsverify, 3, 0x52, 0x53, 0xaf);
+//@ id=C05,C14 tier=thorough name=c05_ms_3of3 timeout=900 role=btc_multisig bound=3-key(s),m=0x53,n=0x53,c=0xae:3-of-3 fn=eval_from_bytes_bitcoin,is_multisig
+btc_multisig!(c05_ms_3of3, 3, 0x53, 0x53, 0xae);
 
 // ---- C16: OP_RETURN payload on the Bitcoin path ------------------------------------------------
 /// RFC 3629 validity of a whole byte string
@@ -312,7 +324,7 @@ fn utf8_valid(b: &[u8]) -> bool {
 }
 
 macro_rules! btc_payload {
-    ($name:ident, $unw:expr, [$($pfx:expr),*], $plen:expr) => {
+    ($name:ident, $unw:expr, [$($pfx:expr),*], $plen:expr, $ver:expr) => {
         #[kani::proof]
         #[kani::unwind($unw)]
         #[kani::stub(<bitcoin::hashes::sha256::HashEngine as bitcoin::hashes::HashEngine>::input, ghost::stub_engine_input)]
@@ -327,10 +339,12 @@ macro_rules! btc_payload {
             while n < pfx.len() { s[n] = pfx[n]; n += 1; }
             let mut i = 0;
             while i < P { s[n] = pay[i]; n += 1; i += 1; }
-            let ver: u8 = if kani::any() { 0x00 } else { 0x6f };
+            // network concrete per instance: a symbolic version byte makes CBMC explore the fork-coin
+            // evaluator as well (real from_utf8_lossy): no result in 15 min even for an empty payload
+            let ver: u8 = $ver;
             let r = eval_from_bytes(&s[..n], ver);
             let valid = utf8_valid(&pay);
-            kani::cover!(valid && P > 0, "valid UTF-8 payload");
+            kani::cover!(P == 0 || valid, "valid UTF-8 payload");
             kani::cover!(P == 0 || !valid, "invalid UTF-8 payload (or empty)");
             kani::cover!(P < 2 || (valid && pay[0] >= 0xc2), "multi-byte sequence");
             assert!(r.address.is_none(), "C16:no_address_for_opreturn");
@@ -352,23 +366,23 @@ macro_rules! btc_payload {
     };
 }
 //@ id=C16,C05 tier=quick name=c16_btc_direct_3 timeout=900 role=btc_payload bound=OP_RETURN+direct-push,3-byte-payload fn=eval_from_bytes_bitcoin,op_return_data,String::from_utf8
-btc_payload!(c16_btc_direct_3, 40, [0x6a, 0x03], 3);
+btc_payload!(c16_btc_direct_3, 40, [0x6a, 0x03], 3, 0x00);
 //@ id=C16,C05 tier=quick name=c16_btc_pd1_2 timeout=900 role=btc_payload bound=OP_RETURN+PUSHDATA1,2-byte-payload
-btc_payload!(c16_btc_pd1_2, 40, [0x6a, 0x4c, 0x02], 2);
+btc_payload!(c16_btc_pd1_2, 40, [0x6a, 0x4c, 0x02], 2, 0x6f);
 //@ id=C16,C05 tier=quick name=c16_btc_pd2_3 timeout=900 role=btc_payload bound=OP_RETURN+PUSHDATA2,3-byte-payload
-btc_payload!(c16_btc_pd2_3, 40, [0x6a, 0x4d, 0x03, 0x00], 3);
+btc_payload!(c16_btc_pd2_3, 40, [0x6a, 0x4d, 0x03, 0x00], 3, 0x00);
 //@ id=C16,C05 tier=quick name=c16_btc_pd4_1 timeout=900 role=btc_payload bound=OP_RETURN+PUSHDATA4,1-byte-payload
-btc_payload!(c16_btc_pd4_1, 40, [0x6a, 0x4e, 0x01, 0x00, 0x00, 0x00], 1);
+btc_payload!(c16_btc_pd4_1, 40, [0x6a, 0x4e, 0x01, 0x00, 0x00, 0x00], 1, 0x00);
 //@ id=C16,C05 tier=quick name=c16_btc_direct_0 timeout=900 role=btc_payload bound=OP_RETURN+OP_0(empty-payload)
-btc_payload!(c16_btc_direct_0, 40, [0x6a, 0x00], 0);
+btc_payload!(c16_btc_direct_0, 40, [0x6a, 0x00], 0, 0x00);
 //@ id=C16,C05 tier=quick name=c16_btc_pd1_0 timeout=900 role=btc_payload bound=OP_RETURN+PUSHDATA1-0(empty-payload)
-btc_payload!(c16_btc_pd1_0, 40, [0x6a, 0x4c, 0x00], 0);
+btc_payload!(c16_btc_pd1_0, 40, [0x6a, 0x4c, 0x00], 0, 0x00);
 //@ id=C16,C05 tier=thorough name=c16_btc_direct_4 timeout=1800 role=btc_payload bound=OP_RETURN+direct-push,4-byte-payload(4-byte-sequences)
-btc_payload!(c16_btc_direct_4, 40, [0x6a, 0x04], 4);
+btc_payload!(c16_btc_direct_4, 40, [0x6a, 0x04], 4, 0x00);
 //@ id=C16,C05 tier=thorough name=c16_btc_pd1_4 timeout=1800 role=btc_payload bound=OP_RETURN+PUSHDATA1,4-byte-payload
-btc_payload!(c16_btc_pd1_4, 40, [0x6a, 0x4c, 0x04], 4);
+btc_payload!(c16_btc_pd1_4, 40, [0x6a, 0x4c, 0x04], 4, 0x00);
 //@ id=C16,C05 tier=thorough name=c16_btc_direct_1 timeout=900 role=btc_payload bound=OP_RETURN+direct-push,1-byte
-btc_payload!(c16_btc_direct_1, 40, [0x6a, 0x01], 1);
+btc_payload!(c16_btc_direct_1, 40, [0x6a, 0x01], 1, 0x6f);
 
 // ---- C14 long sweeps: per-token counters swept across their u8 boundary ------------------------
 // [head] k x (01 xx) [n] [c] on the Bitcoin path (real is_multisig walker), payload bytes symbolic.
